@@ -12,6 +12,9 @@ from ndn import types as ndn_types
 from ndn.security import DigestSha256Signer
 
 
+BYSTANDER_LIFETIMES = (7, 13, 27, 61, 130)       # never used by a fetcher: lets the scripted producer tell them apart
+
+
 def seg_comp(k):
     return tlvref.tlv(tlvref.T_SEGMENT, tlvref.nni(k))
 
@@ -34,7 +37,10 @@ class SegWorld(World):
         self.obj_name = self.prefix + (tlvref.name_from_uri('/' + sc['version']) if sc.get('version') else [])
         self.nseg = sc['nseg']                  # 0 = unsegmented object
         self.requests = collections.defaultdict(int)       # key ('disc' | k) -> Interests seen
-        self.yields = []
+        self.fetchers = sc.get('fetchers') or [{'start_us': 0}]
+        self.bystanders = sc.get('bystanders') or []
+        self.multi = len(self.fetchers) > 1 or bool(self.bystanders)
+        self.yields = {i: [] for i in range(len(self.fetchers))}
         self.harness_tasks = set()
 
     # ---- scripted producer -----------------------------------------------------------------
@@ -54,6 +60,10 @@ class SegWorld(World):
             self.violate('C19', 'unexpected-interest', 'segment_fetcher', 'name',
                          f'fetcher sent an Interest for an unexpected name ({len(name)} components)')
             return
+        if p.lifetime in BYSTANDER_LIFETIMES:
+            self.log('bystander-request', key=key)       # another consumer on the same application; never answered
+            self.tok(f'B{key}')
+            return
         idx = self.requests[key]
         self.requests[key] += 1
         self.log('request', key=key, idx=idx, cbp=p.can_be_prefix, mbf=p.must_be_fresh, lifetime=p.lifetime)
@@ -68,7 +78,7 @@ class SegWorld(World):
             target = key
         act = pattern[idx] if idx < len(pattern) else {'a': 'ok'}
         a = act['a']
-        delay = act.get('delay_us', 50)
+        delay = act.get('delay_us', self.scenario.get('base_delay_us', 50))
         if a == 'lost':
             self.stats['fault.lost'] += 1
             return
@@ -107,9 +117,42 @@ class SegWorld(World):
         self.log('reply', delivered=self.face.deliver(wire))
 
     # ---- consumer --------------------------------------------------------------------------
-    async def _consume(self):
+    async def _main(self):
+        tasks = [self.loop.create_task(self._consume(i, f.get('start_us', 0))) for i, f in enumerate(self.fetchers)]
+        side = [self.loop.create_task(self._bystander(i, b)) for i, b in enumerate(self.bystanders)]
+        self.harness_tasks.update(tasks + side)
+        await asyncio.gather(*tasks)
+        for t in side:
+            t.cancel()
+        if side:
+            await asyncio.gather(*side, return_exceptions=True)
+        if self.face.running:
+            self.app.shutdown()
+
+    async def _bystander(self, i, b):
+        """a plain consumer on the same application asking for one of the object's names; its Interest is never answered
+        by the scripted producer (but a Data fetched by a fetcher satisfies it like any other pending Interest)"""
+        if b.get('at_us'):
+            await asyncio.sleep(b['at_us'] / 1e6)
+        name = self.obj_name + [seg_comp(b['seg'])] if b['seg'] != 'disc' else self.prefix
+        self.log('bystander', i=i, seg=b['seg'])
+        self.tok('b')
+        try:
+            await self.app.express_interest(enc.Name.to_bytes(name), lifetime=b['lifetime'], must_be_fresh=False,
+                                            can_be_prefix=False, validator=None)
+            self.log('bystander-end', i=i, out='data')
+        except ndn_types.InterestTimeout:
+            self.log('bystander-end', i=i, out='timeout')
+        except asyncio.CancelledError:
+            self.log('bystander-end', i=i, out='cancelled')
+        except BaseException as e:
+            self.log('bystander-end', i=i, out='other', exc=exc_brief(e))
+
+    async def _consume(self, fid=0, start_us=0):
         from ndn.app_support.segment_fetcher import segment_fetcher
         sc = self.scenario
+        if start_us:
+            await asyncio.sleep(start_us / 1e6)
         invalid = set(sc.get('invalid', []))
         world = self
 
@@ -122,29 +165,27 @@ class SegWorld(World):
             async for content in segment_fetcher(self.app, '/' + '/'.join(sc['prefix']), timeout=sc['lifetime'],
                                                  retry_times=sc['retry_times'], validator=validator,
                                                  must_be_fresh=sc.get('mbf', True)):
-                self.yields.append(None if content is None else bytes(content))
-                self.log('yield', n=len(self.yields), content=None if content is None else bytes(content))
-                self.tok('Y')
-            self.log('end', out='complete')
+                self.yields[fid].append(None if content is None else bytes(content))
+                self.log('yield', fid=fid, n=len(self.yields[fid]), content=None if content is None else bytes(content))
+                self.tok('Y' if not self.multi else f'Y{fid}')
+            self.log('end', fid=fid, out='complete')
         except ndn_types.InterestTimeout:
-            self.log('end', out='timeout')
+            self.log('end', fid=fid, out='timeout')
         except ndn_types.InterestNack as e:
-            self.log('end', out='nack', reason=e.reason)
+            self.log('end', fid=fid, out='nack', reason=e.reason)
         except ndn_types.ValidationFailure:
-            self.log('end', out='invalid')
+            self.log('end', fid=fid, out='invalid')
         except ndn_types.InterestCanceled:
-            self.log('end', out='canceled')
+            self.log('end', fid=fid, out='canceled')
         except asyncio.CancelledError:
-            self.log('end', out='cancelled-error')
+            self.log('end', fid=fid, out='cancelled-error')
         except BaseException as e:
-            self.log('end', out='error', exc=exc_brief(e), where=innermost_ndn_frame(e))
-        if self.face.running:
-            self.app.shutdown()
+            self.log('end', fid=fid, out='error', exc=exc_brief(e), where=innermost_ndn_frame(e))
 
     def execute(self, keep_events=False):
         try:
             def start():
-                t = self.loop.create_task(self.app.main_loop(after_start=self._consume()))
+                t = self.loop.create_task(self.app.main_loop(after_start=self._main()))
                 self.harness_tasks.add(t)
             self.loop.call_soon(start)
             limit = self.run()
@@ -159,15 +200,19 @@ class SegWorld(World):
     # ---- oracle ----------------------------------------------------------------------------
     def _judge(self):
         sc = self.scenario
-        ends = [e for e in self.events if e['k'] == 'end']
-        if not ends:
+        ends = {e['fid']: e for e in reversed(self.events) if e['k'] == 'end'}
+        if len(ends) < len(self.fetchers):
             self.violate('C19', 'hang', 'segment_fetcher', 'fetch', 'the fetch never finished')
             return
-        end = ends[0]
-        if end['out'] == 'error':
-            self.violate('C19', 'internal-error', 'segment_fetcher', end.get('where', '?'),
-                         f'the fetch ended with {end.get("exc")}')
+        for fid in sorted(ends):
+            if ends[fid]['out'] == 'error':
+                self.violate('C19', 'internal-error', 'segment_fetcher', ends[fid].get('where', '?'),
+                             f'the fetch ended with {ends[fid].get("exc")}')
+                return
+        if self.multi:
+            self._judge_multi(ends)
             return
+        end = ends[0]
         R = sc['retry_times']
         life = sc['lifetime'] * 1000
         exact = True
@@ -232,7 +277,7 @@ class SegWorld(World):
                 if k == nseg - 1:
                     break
                 k += 1
-        got = self.yields
+        got = self.yields[0]
         # safety (always): what was yielded is a prefix of the object, in order, nothing twice or skipped
         full = [seg_content(sc, 0)] if unseg else [seg_content(sc, k) for k in range(nseg)]
         if got != full[:len(got)]:
@@ -264,6 +309,47 @@ class SegWorld(World):
                 self.violate('C19', 'attempts', 'segment_fetcher', 'extra',
                              f'producer saw {seen} Interest(s) for {"discovery" if key == "disc" else f"segment {key}"} '
                              f'that the reference walk never requests')
+        for t in self.loop.unretrieved_task_errors():
+            if t in self.harness_tasks:
+                continue
+            e = t.exception()
+            self.violate('C19', 'task-died', 'segment_fetcher', innermost_ndn_frame(e), f'background task ended with {exc_brief(e)}')
+
+
+    def _judge_multi(self, ends):
+        """several fetches of the same object (and plain consumers of its names) share one application: which reply
+        answers whose Interest depends on the schedule, so attempts are not counted; what each fetch yields must still
+        be the object, in order, complete when it ends normally - and when every reply arrives well in time and nothing
+        is lost, refused or invalid, every fetch completes."""
+        sc = self.scenario
+        nseg = self.nseg
+        unseg = nseg == 0 or sc['discovery'] == 'unseg'
+        full = [seg_content(sc, 0)] if unseg else [seg_content(sc, k) for k in range(nseg)]
+        life = sc['lifetime'] * 1000
+        clean = not sc.get('invalid') and sc.get('base_delay_us', 50) <= life - 3000 and \
+            all(a['a'] == 'ok' and a.get('delay_us', sc.get('base_delay_us', 50)) <= life - 3000
+                for pat in sc['loss'].values() for a in pat)
+        for fid in sorted(ends):
+            got = self.yields[fid]
+            end = ends[fid]
+            if got != full[:len(got)]:
+                first = next((i for i, (a, b) in enumerate(zip(got, full)) if a != b), min(len(got), len(full)))
+                self.violate('C19', 'order', 'segment_fetcher', 'yield-concurrent',
+                             f'fetch {fid} of {len(ends)} yielded {len(got)} item(s); item #{first} is not segment {first} '
+                             f'of the object ({len(full)} segment(s))')
+                return
+            if end['out'] == 'complete' and len(got) != len(full):
+                self.violate('C19', 'incomplete', 'segment_fetcher', 'yield-concurrent',
+                             f'fetch {fid} of {len(ends)} on one application completed normally after {len(got)} of '
+                             f'{len(full)} segment(s)')
+                return
+            if clean and end['out'] != 'complete':
+                self.violate('C19', 'outcome', 'segment_fetcher', f'complete->{end["out"]}-concurrent',
+                             f'fetch {fid} of {len(ends)} ended {end["out"]} after {len(got)} segment(s) although every '
+                             f'reply was delivered in time and none was lost, refused or invalid')
+                return
+        if not clean:
+            self.ambiguous += 1
         for t in self.loop.unretrieved_task_errors():
             if t in self.harness_tasks:
                 continue
@@ -306,7 +392,20 @@ def generate(rng, seed, tier='quick'):
         if pat:
             loss[key] = pat
     invalid = [k for k in range(max(nseg, 1)) if rng.random() < 0.06]
-    return {'engine': 'segfetch', 'property': 'C19', 'seed': seed,
+    extra = {}
+    if rng.random() < 0.3:
+        # several consumers of the same object on one application
+        nf = rng.choice([1, 2, 2, 3])
+        extra['fetchers'] = [{'start_us': 0 if i == 0 or rng.random() < 0.5 else rng.choice([1, 50, 1000, life * 500, life * 1000])}
+                             for i in range(nf)]
+        nb = rng.choice([0, 0, 1, 2]) if nf > 1 else rng.choice([1, 1, 2])
+        extra['bystanders'] = [{'at_us': rng.choice([0, 0, 50, 1000, life * 300]),
+                                'seg': rng.randrange(max(nseg, 1)) if nseg and rng.random() < 0.9 else 'disc',
+                                'lifetime': rng.choice(BYSTANDER_LIFETIMES)} for _ in range(nb)]
+        extra['base_delay_us'] = rng.choice([0, 50, 1000, max(0, life * 1000 - 4000), max(0, life * 500)])
+        if rng.random() < 0.6:
+            loss, invalid = {}, []          # every reply in time: each fetch has to complete
+    return {'engine': 'segfetch', 'property': 'C19', 'seed': seed, **extra,
             'config': {'turn_cost_us': rng.choice([0, 0, 1]), 'wall_gran_us': 1000, 'debug_log': rng.random() < 0.1},
             'prefix': rng.choice([['obj'], ['a', 'obj'], ['x', 'y', 'z']]), 'version': rng.choice([None, 'v1', 'v1']),
             'nseg': nseg, 'sizes': [rng.choice([0, 1, 3, 10, 300]) for _ in range(max(nseg, 1))],
